@@ -444,7 +444,10 @@ type lastSegInfo struct {
 
 // availabilityTime returns the availability time of the last segment given ato.
 func (l lastSegInfo) availabilityTime(ato float64) float64 {
-	return math.Round(float64(l.startTime+l.dur)/float64(l.timescale)) - ato
+	// First whole millisecond at which the segment has ended (integer arithmetic; the end is in general
+	// not a whole second, so it must not be rounded to one).
+	endMS := ((l.startTime+l.dur)*1000 + l.timescale - 1) / l.timescale
+	return float64(endMS)/1000 - ato
 }
 
 // generateTimelineEntries generates timeline entries for the given representation.
